@@ -45,6 +45,8 @@ CHECKS = {
          "enumerated: 8 targets x 5 fault kinds x 3 phases (first run, after edit, edit-then-revert) x 2 modes on the CLI path plus a build-script slice in quick; both paths completely in thorough; evidence reports fault points requested vs actually hit and the exit codes seen", "4 C17"),
  "C18": ("exploration", "runtime monitor (differential + reference): each project generated by the real CLI with and without the mapping table; mapped positions compared with the reference denotation, identifier scan for leftovers, declaration-multiset diff of everything else",
          "held on everything observed: 10 single-entry tables (plain and generic names) + 6 (quick) / 40 (thorough) multi-entry tables x ~60 constructor positions x 5 sites x 2 modes, with near-miss-named unrelated declarations in every project", "4 C18"),
+ "C19": ("exploration", "runtime monitor: generated JSON documents through the real init / save_to_tauri_config and an exact JSON reader; effect-based observation of every cell of the flag/file/default matrix; snapshot diff for rejected settings",
+         "held on everything observed: 300 (quick) / 10 000 (thorough) documents (nesting <= 6, i64/u64-range integers, decimals, Unicode, 7 plugins-section shapes), round trip of the ten persisted settings, all 2^5 flag subsets x 4 file contents x 2 config sources (286 cells), 16 rejection / override cases", "4 C19"),
  "C20": ("exploration", "runtime monitor: real ordering routines driven over enumerated graphs, each result judged by a closure/SCC oracle; crash = replayed and bisected",
          "held on every call observed: exhaustive over all digraphs (self-loops included) on <=3 nodes in quick and <=4 nodes in thorough, x all requested subsets x repeated fresh hash seeds, plus random graphs to 12 nodes; evidence reports distinct result orders seen per case", "4 C20"),
 }
